@@ -90,3 +90,43 @@ func (r *Run) drawName(prng io.Reader, n int, kind string) (string, error) {
 func (r *Run) Drawn(reader string, off int) *F {
 	return r.field.mk(r.newVarL(fmt.Sprintf("rnd:%s@%d", reader, off)))
 }
+
+// RenameF returns x with every variable whose name satisfies match replaced by a fresh variable
+// (name + suffix): "the same computation under another random stream of that party".
+func (r *Run) RenameF(x *F, match func(name string) bool, suffix string) *F {
+	return r.field.mk(r.renamePoly(x.p, match, suffix))
+}
+
+// RenameG is RenameF for group elements.
+func (r *Run) RenameG(x *G, match func(name string) bool, suffix string) *G {
+	return r.group.mk(r.renamePoly(x.p, match, suffix))
+}
+
+func (r *Run) renamePoly(p *Poly, match func(name string) bool, suffix string) *Poly {
+	used := map[int]bool{}
+	p.varSet(used)
+	out := p
+	for id := range used {
+		name := (*r.byID)[id].name
+		if match(name) {
+			out = out.subst(id, r.newVarL(name+suffix), r.q)
+		}
+	}
+	return out
+}
+
+// VarNamesF lists the variables an element depends on (syntactic support of its normal form).
+func (r *Run) VarNamesF(x *F) []string { return r.varNames(x.p) }
+
+// VarNamesG lists the variables a group element depends on.
+func (r *Run) VarNamesG(x *G) []string { return r.varNames(x.p) }
+
+func (r *Run) varNames(p *Poly) []string {
+	used := map[int]bool{}
+	p.varSet(used)
+	var out []string
+	for id := range used {
+		out = append(out, (*r.byID)[id].name)
+	}
+	return out
+}
